@@ -937,6 +937,27 @@ def gen_merge16(rng):
             files[name] = "".join(parts)
             names.append(name)
         scn.update(files=files, names=names, multidoc=True)
+    elif rng.random() < 0.15 and "-M" not in opts:
+        # default condense_all: every document of every input is folded into
+        # the first document of the first input, which is itself a stream
+        parts = [files[names[0]] if files[names[0]].startswith("---")
+                 else "---\n" + files[names[0]]]
+        if names[0].endswith(".json"):
+            parts = ["--- " + files[names[0]]]
+        for _ in range(rng.choice([1, 2])):
+            gen = gen_docs.DocGen(rng, sets=False, anchors=False,
+                                  max_nodes=rng.choice([4, 8]))
+            clash = rng.random() < 0.35
+            other = gen.document(root=("l" if root == "m" else "m")
+                                 if clash else root)
+            parts.append(gen_docs.to_yaml(other, start=True))
+        new_name = W + "multi0.yaml"
+        files = dict(files)
+        del files[names[0]]
+        files[new_name] = "".join(p if p.endswith("\n") else p + "\n"
+                                  for p in parts)
+        names = [new_name] + names[1:]
+        scn.update(files=files, names=names, condense=True)
     return scn
 
 
@@ -985,6 +1006,12 @@ def expect_merge(scn, texts, output):
                 "many": [mrg.data for mrg in mergers]}
     datas = []
     for text in texts:
+        if scn.get("condense"):
+            docs, okay = strict_load_all(text)
+            if not okay or not docs:
+                return {"exit": "nonzero"}
+            datas.extend(docs)
+            continue
         data, okay = strict_load(text)
         if not okay:
             return {"exit": "nonzero"}
